@@ -5,7 +5,7 @@
    per-sample terms, weights normalised to one, the per-shell n_eff combination IS Kish's formula over all samples). *)
 From Coq Require Import List Arith QArith.
 Import ListNotations.
-Require Import NV.Base NV.Shell2 NV.Shell2Count NV.Shell2Thm NV.Estim.
+Require Import NV.Base NV.Shell2 NV.Shell2Count NV.Shell2Thm NV.Estim NV.EstimExec NV.EstimRefine.
 
 Section P.
 Variable contains : bid -> pid -> bool.
@@ -26,7 +26,7 @@ End P.
 Print Assumptions C02_aligned.
 Print Assumptions C02_fraction.
 
-Theorem C02_volume : forall s : Estim.shell, 0 <= bv s -> 0 < ns s -> n s <= ns s -> vol s <= bv s.
+Theorem C02_volume : forall s : Estim.shell, 0 <= Estim.bv s -> 0 < Estim.ns s -> n s <= Estim.ns s -> vol s <= Estim.bv s.
 Proof. exact vol_le_bound. Qed.
 Print Assumptions C02_volume.
 
@@ -45,6 +45,25 @@ Theorem C02_kish : forall ss, Forall good ss ->
   sq (Zall ss) / qsum (map (fun s => sq (zsh s) / neff_sh s) ss) == sq (qsum (Wall ss)) / qsum (map sq (Wall ss)).
 Proof. exact C02_neff. Qed.
 Print Assumptions C02_kish.
+
+(* refinement: the executable dyadic evaluator the harness runs on the stored samples (EstimExec) computes exactly these
+   specification statistics: shell volume, shell evidence, per-shell n_eff, total evidence, and the denominator of n_eff *)
+Theorem C02_exec_volume : forall s : EstimExec.shell, volQ s == vol (abs s).
+Proof. exact volQ_refines. Qed.
+Print Assumptions C02_exec_volume.
+Theorem C02_exec_shell_evidence : forall s : EstimExec.shell, ~ nQ s == 0 -> ~ inject_Z (EstimExec.ns s) == 0 -> zQ s == zsh (abs s).
+Proof. exact zQ_refines. Qed.
+Print Assumptions C02_exec_shell_evidence.
+Theorem C02_exec_shell_neff : forall s : EstimExec.shell, ~ dy_Q (s2 s) == 0 -> neffShQ s == neff_sh (abs s).
+Proof. exact neffSh_refines. Qed.
+Print Assumptions C02_exec_shell_neff.
+Theorem C02_exec_evidence : forall ss, Forall (fun s => ~ nQ s == 0 -> ~ inject_Z (EstimExec.ns s) == 0) ss -> Ztot ss == Zall (map abs (filter nonempty ss)).
+Proof. exact Ztot_refines. Qed.
+Print Assumptions C02_exec_evidence.
+Theorem C02_exec_neff : forall ss, Forall (fun s => ~ nQ s == 0 /\ ~ inject_Z (EstimExec.ns s) == 0 /\ ~ dy_Q (s1 s) == 0 /\ ~ dy_Q (s2 s) == 0) ss ->
+  W2tot ss == qsum (map (fun s => sq (zsh s) / neff_sh s) (map abs (filter nonempty ss))).
+Proof. exact neffQ_refines. Qed.
+Print Assumptions C02_exec_neff.
 
 (* non-vacuity: two shells with concrete numbers *)
 Example C02_example :
